@@ -68,7 +68,11 @@ def setup_worker():
 PY = ["import os\nx = 1\n", "def f(a, b=2):\n    return a + b\nr = f(1)\n", "class A:\n    def m(self, p):\n        self.q = p\n        return p\n",
       "from pkg import util\nv = util.g(3)\n", "y = [1, 2, 3]\nfor i in y:\n    print(i)\n",
       # a taint flow (the parameter alpha is a source in the small settings): the taint writer has something to write
-      "def handler(alpha):\n    query = alpha\n    sink(query)\n    return query\nhandler(1)\n"]
+      "def handler(alpha):\n    query = alpha\n    sink(query)\n    return query\nhandler(1)\n",
+      # unusual but legal files: CRLF line ends, a byte-order mark, empty, no newline at the end, one very long line, names lian
+      # generates itself
+      "import os\r\nx = 1\r\ndef f(a):\r\n    return a\r\n", "\ufeffx = 1\ny = x\n", "", "x = 1\ny = 2", "z = [" + ", ".join(str(i) for i in range(600)) + "]\n",
+      "vv1 = 1\nunit_init = vv1\ndef unit_init_(alpha):\n    return alpha\n"]
 JS = ["function f(a) { return a + 1; }\nvar r = f(2);\n", "const o = {a: 1};\no.b = o.a;\n",
       # names taken from the analysed code may contain path separators
       'const routes = {\n  "../../../../../../site/routes/index"(req) { return req; },\n  "a/b"(x) { return x; }\n};\nroutes["a/b"](1);\n',
@@ -108,6 +112,7 @@ def gen_knobs(rng, tier):
         "pwd_env": rng.choice(["unset", "unset", "correct", "stale", "stale"]),
         "nested_inputs": rng.random() < 0.2,
         "quiet": rng.random() < 0.6,          # without -q the taint phase writes its report file
+        "umask": rng.choice(["022", "022", "077", "000", "027"]),
         "debug_print": rng.random() < 0.15,   # -d -p (never quiet): debug output and statement dumps
         "ws_under_src": rng.random() < 0.2,   # the workspace below a directory that is itself called src (a checkout's src/)
         "tier": tier,
@@ -246,7 +251,7 @@ def generate(rng, k):
     if k["cwd_in_input"] and inputs and not inputs[0].endswith(".py"):
         cwd = inputs[0]
     run = {"op": "run", "sub": k["sub"], "lang": k["lang"], "force": k["force"], "cwd": cwd, "pwd_env": k.get("pwd_env", "unset"),
-           "quiet": k.get("quiet", True) and not k.get("debug_print"),
+           "quiet": k.get("quiet", True) and not k.get("debug_print"), "umask": k.get("umask", "022"),
            "flags": (["--nomock"] if k["nomock"] else []) + (["-I"] if k["lang"] == "c" and k.get("c_preprocess") else [])
                     + (["--strict-parse-mode"] if k.get("strict") else [])
                     + (["-d", "-p"] if k.get("debug_print") else [])
@@ -497,6 +502,7 @@ def execute(trace):
                 env_["PWD"] = os.path.join(R, "elsewhere_pwd")
                 hit("pwd_left_over_from_launcher")
             out = lianrun.run_forked(_M, argv, cwd_abs, report_path, stdio_path, before_run=before_run, timeout=150, env=env_,
+                                     umask=int(op.get("umask", "022"), 8),
                                      unset_env=("PWD",) if pwd_kind == "unset" else ())
             rep = out.get("report") or {}
             status = out.get("status", "?")
